@@ -156,6 +156,9 @@ func BatchedWriter.Enqueue
   ghost after call Bool.Load: accepted = result && aload(bw.scheduledCount) == cnt0 + 1
   ghost before send: assert accepted && aload(bw.scheduledCount) == cnt0 + 1
   ghost before send: sent = true
+  -- Enqueue itself takes no lock: once it has counted its object, StopBatchWriter - which holds startStopMutex while it waits
+  -- for the writer, and the writer waits for the count to drain - would wait for this call, and this call for the mutex
+  ghost after acquire: assert false
   ensures sent || aload(bw.scheduledCount) == cnt0
 
 -- the lazily started writer: what startBatchWriter needs
@@ -223,4 +226,12 @@ func BatchedWriter.runBatchWriter$1
   -- ... or a flush was requested and the open collector goes back to the caller
   ensures *shouldFlush && !old(*shouldFlush) ==> !(*batchCollector).committed && pending == (*batchCollector).writtenValuesCounter && 0 <= (*batchCollector).writtenValuesCounter && (*batchCollector).writtenValuesCounter < len((*batchCollector).writtenValues)
   ensures *shouldFlush && !old(*shouldFlush) ==> forall k Int :: 0 <= k && k < (*batchCollector).writtenValuesCounter ==> (*batchCollector).writtenValues[k] != nil
+-- the constructor takes the batch size from the options as they are (a size the caller did not ask for - 0 for an unbuffered
+-- queue - would make the collector's slice empty: its first Add indexes it)
+func NewBatchedWriter
+  opt only-ghost-asserts
+  modifies everything
+  ghost local bs Int
+  ghost after call Options.apply #2: bs = options.batchSize
+  ghost at return: assert r0 != nil && r0.opts == options && r0.opts.batchSize == bs
 @*/
